@@ -737,6 +737,9 @@ func (cr *clRun) deepChecks(when string, promoted string) {
 			} else if w := cr.ackedByMinorityOfRF(bad); w != nil {
 				clause += "/write-held-by-minority-of-rf"
 				why += cr.d26Note(w)
+			} else if w := cr.punchedThenRebuilt(rn.addr, bad); w != nil {
+				clause += "/punched-snapshot-not-resynced"
+				why += cr.d28Note(w, rn.name)
 			}
 			cr.viol(prop("C02"), clause, "%s: replica %s: %s", when, rn.name, why)
 			return
@@ -852,7 +855,9 @@ func (cr *clRun) deepChecks(when string, promoted string) {
 		// (an entry already marked ERR is on its way out: the controller re-computes the checkpoint when it
 		// removes it, which the C05 clause failed-replica-never-detached bounds; "as soon as a replica
 		// leaves" is judged from the removal on)
-		if (len(rws) != c.rf || countMode(list, types.RW) != c.rf) && countMode(list, types.ERR) == 0 {
+		// (judged on the controller's own list: a replica that has just died is still listed RW until the
+		// controller notices, which the membership clauses bound)
+		if countMode(list, types.RW) != c.rf && countMode(list, types.ERR) == 0 {
 			cr.viol("C13", "checkpoint-kept-without-all-rw", "%s: controller checkpoint %s while %d of RF=%d replicas are RW: %v", when, cp, countMode(list, types.RW), c.rf, list)
 			return
 		}
